@@ -5,31 +5,35 @@
      - a design that does not contain the offending module (tainted = FALSE) must not be affected
      - a call that raises must raise the error a fresh process raises, or repeat the original failure of this history (origs);
        anything else - e.g. a bogus "circular dependency" - is spurious
-   The error signature is the exception type and the last line of its message. *)
+   The error signature is the exception type and the last line of its message; where the original failure of this history is repeated, the
+   complete message (its digest, when logged) must be the one first reported - an error that grows or changes from attempt to attempt is not
+   "the original error again". *)
 EXTENDS Integers, Sequences, TLC, Json, IOUtils
 T_ == ndJsonDeserialize(IOEnv.TRACE_FILE)
-VARIABLES l, origs, tid, bad
-Clause(e, o) ==
+VARIABLES l, origs, ofull, tid, bad
+Clause(e, o, of) ==
   IF ~e.raised THEN
        IF e.fresh_raised THEN "returned_where_a_fresh_process_raises"
        ELSE IF e.digest # e.fresh_digest THEN "package_differs_from_fresh_process" ELSE ""
   ELSE IF e.fresh_raised /\ e.sig = e.fresh_sig THEN ""
   ELSE IF e.label = "first" THEN ""                           \* the failure that starts the history (an injected exception)
   ELSE IF ~e.tainted THEN "unrelated_design_poisoned"
-  ELSE IF e.sig \in o THEN ""
+  ELSE IF e.sig \in o THEN (IF e.full # "" /\ of # {} /\ e.full \notin of THEN "original_error_reported_differently" ELSE "")
   ELSE "spurious_error"
-Init == l = 1 /\ origs = {} /\ tid = -1 /\ bad = ""
+Init == l = 1 /\ origs = {} /\ ofull = {} /\ tid = -1 /\ bad = ""
 Next ==
   /\ l <= Len(T_)
   /\ LET e == T_[l]
          fresh == e.tid # tid
          o0 == IF fresh THEN {} ELSE origs
+         f0 == IF fresh THEN {} ELSE ofull
          b0 == IF fresh THEN "" ELSE bad
-         c  == Clause(e, o0)
+         c  == Clause(e, o0, f0)
          b1 == IF b0 # "" THEN b0 ELSE IF c = "" THEN "" ELSE c \o "@" \o e.label
          last == l = Len(T_) \/ T_[l + 1].tid # e.tid
      IN /\ origs' = IF e.raised /\ e.label = "first" THEN o0 \cup {e.sig} ELSE o0
+        /\ ofull' = IF e.raised /\ e.label = "first" /\ e.full # "" THEN f0 \cup {e.full} ELSE f0
         /\ tid' = e.tid /\ bad' = b1 /\ l' = l + 1
         /\ (last => PrintT(<<"VERDICT", e.tid, b1 = "", b1>>))
-Spec == Init /\ [][Next]_<<l, origs, tid, bad>>
+Spec == Init /\ [][Next]_<<l, origs, ofull, tid, bad>>
 =============================================================================
